@@ -294,7 +294,7 @@ Proof.
     assert (RF' : exists lk, ce <> [] -> HeapRep.rep_flds lk (Heap.m hs) (map snd ce) q).
     { destruct (hinv_last_rep p _ _ _ _ _ _ HI) as (lk & RP). exists lk. intros _. inversion RP; subst. assumption. }
     destruct RF' as (lk & RFlk).
-    destruct (hsim_invoke im p stop STOPC ENDC ENC _ _ hs st v tag (Decl tn) args code lc lc' pc he0 x tn cls ce q cl e1 lk hl fl cl0
+    destruct (hsim_invoke im p stop STOPC ENDC _ _ hs st v tag (Decl tn) args code lc lc' pc he0 x tn cls ce q cl e1 lk hl fl cl0
                 R (XC.split_last1_app _ _) FC BD LC0 CS (proj1 PL) IA K03 ltac:(lia) RFlk)
       as (pcb & lcb & cb & lcb' & s' & X' & CSb & PLb & LCb & ANb & FRb & R').
     eassert (IHn : rfin im stop _ s' _ /\ has_nz cb).
@@ -303,7 +303,9 @@ Proof.
       rewrite vars_ctx_of_env. f_equal. exact (XS.bind_ids _ _ _ BD). }
     destruct IHn as [Fin NZn]. split; [apply (X' NZn); exact Fin|].
     destruct (cs_invoke _ _ _ _ _ _ _ _ _ _ CS) as (tmpv' & d' & _ & _ & _ & CD).
-    destruct (Nat.leb (List.length (txtors d')) 1); [subst code|destruct CD as (k' & _ & ->)]; apply nz1; cbn; lia.
+    destruct (Nat.leb (List.length (txtors d')) 1); [subst code; apply nz1; cbn; lia|destruct CD as (k' & _ & ->)].
+    cbv [b_mark b_add_and_jump rv_backend r_add_and_jump]. cbn [app].
+    destruct (addi_fits _); cbn [app]; apply nz1; [cbn; lia|apply isize_LI].
   - (* Literal *)
     cbn [stmt_k] in FR.
     cbn [lin_check] in LC. apply andb_true_iff in LC as [_ LC]. cbn [ann_check] in AN.
